@@ -62,7 +62,10 @@ def run(ctx):
     mism = [l for l in res if not l.startswith("OK ")]
     distinct = len(set(l.split("\t", 2)[2] for l in lines if l.count("\t") >= 2))
     outcomes = {"all_ok": 0, "with_error": 0, "with_panic": 0}
+    kinds = {k: sum(1 for l in lines if l.startswith(k + "\t")) for k in ("S", "M", "L")}
     for l in lines:
+        if not l.startswith("S\t"):
+            continue
         oc = l.split("\t")[3].split("|", 1)[0][3:]
         if "p" in oc:
             outcomes["with_panic"] += 1
@@ -73,13 +76,15 @@ def run(ctx):
     ctx.cov["evaluations"] += len(lines)
     ctx.cov["distinct_nontrivial"] += distinct
     ctx.notes["correspondence"] = {
-        "cases": len(lines), "mismatches": len(mism), "distinct_cases": distinct, "histories_by_outcome": outcomes,
+        "cases": len(lines), "mismatches": len(mism), "distinct_cases": distinct, "histories_by_outcome": outcomes, "kinds": kinds,
         "distribution": "exhaustive: every media type (7 supported, 6 handler-style, 4 unsupported) x 15 language tags (length 2,3,5,6,8,10 "
                         "incl. en-US, zh-Hant, upper case) one track; every ordered pair of media types; every AAC object type x "
                         "standard frequency; every acmod x lfeon x fscod. Random: %d in-scope histories (0-5 tracks, 0-2 descriptors "
                         "per track, parameter sets from the repository's tests) + %d out-of-scope histories (bad media types, "
                         "out-of-range track index, truncated/foreign SPS, empty SPS list, invalid object types, fscod 3, no EC-3 "
-                        "substream, descriptors not fitting the track)" % (n, n),
+                        "substream, descriptors not fitting the track). M: MoovBox.AddChild(trak) on every moov child pattern over "
+                        "{mvhd, mvex, trak} up to length 6 (1093 patterns; covers the insertion branch that in-scope histories never reach). "
+                        "L: elng encode/decode for fixed tags of length 0..26 (incl. NUL bytes) + %d random tags" % (n, n, n // 4),
     }
     ctx.cov["samples"] += [l[:300] for l in lines[5:7]] + [l[:400] for l in lines[-2:]]
     ctx.log("correspondence: %d cases, %d mismatches" % (len(lines), len(mism)))
@@ -93,6 +98,8 @@ def run(ctx):
         f = l.split("\t")
         if f[0] == "FAIL":
             fails.append(f)
+        elif f[0] == "OBS":
+            ctx.notes.setdefault("observations_outside_the_quantifier", {})[f[1]] = f[2]
         elif f[0] == "EVALS":
             ctx.cov["evaluations"] += int(f[1])
             ctx.notes["search_evaluations"] = int(f[1])
